@@ -509,6 +509,100 @@ theorem relFForm22_solves (hGamma_1_0 : 0 ≤ Gamma_1_0) (hGamma_1_1 : 0 ≤ Gam
 
 end PREL22
 
+/-! ### the P-vector parametrisation is the documented one -/
+
+section PDoc
+variable (s m_1 m_2 Gamma_1_0 Gamma_1_1 Gamma_2_0 Gamma_2_1 gamma_1_0 gamma_1_1 gamma_2_0 gamma_2_1 beta_1 beta_2 : ℝ)
+
+/-- residue functions `g_R,i = γ_R,i √(m_R Γ_R,i)` (documentation, Eq. "residue-function") -/
+noncomputable def nrG : Fin 2 → Fin 2 → ℝ :=
+  ![![gamma_1_0 * Real.sqrt (m_1 * Gamma_1_0), gamma_1_1 * Real.sqrt (m_1 * Gamma_1_1)],
+    ![gamma_2_0 * Real.sqrt (m_2 * Gamma_2_0), gamma_2_1 * Real.sqrt (m_2 * Gamma_2_1)]]
+
+/-- production couplings `β⁰_R = β_R √(m_R Γ_R)` (documentation, Eq. "beta functions"), with the width
+read as the partial width of the channel, as the code does (for one channel the two coincide) -/
+noncomputable def nrBeta0 : Fin 2 → Fin 2 → ℝ :=
+  ![![beta_1 * Real.sqrt (m_1 * Gamma_1_0), beta_1 * Real.sqrt (m_1 * Gamma_1_1)],
+    ![beta_2 * Real.sqrt (m_2 * Gamma_2_0), beta_2 * Real.sqrt (m_2 * Gamma_2_1)]]
+
+/-- **Non-relativistic P-vector parametrisation = the documented formula**
+`P_i = Σ_R β⁰_R,i g_R,i / (m_R² − s)` (Eq. "P-vector parametrization") with the residue functions `g_R,i`
+of the K-matrix and `β⁰ = β √(m Γ)` (Eq. "beta functions"). -/
+theorem nrP22_eq_documented (hm1 : 0 ≤ m_1) (hm2 : 0 ≤ m_2)
+    (h10 : 0 ≤ Gamma_1_0) (h11 : 0 ≤ Gamma_1_1) (h20 : 0 ≤ Gamma_2_0) (h21 : 0 ≤ Gamma_2_1) :
+    ∀ i : Fin 2,
+      ![nrP22_0 s m_1 m_2 Gamma_1_0 Gamma_1_1 Gamma_2_0 Gamma_2_1 gamma_1_0 gamma_1_1 gamma_2_0 gamma_2_1 beta_1 beta_2,
+        nrP22_1 s m_1 m_2 Gamma_1_0 Gamma_1_1 Gamma_2_0 Gamma_2_1 gamma_1_0 gamma_1_1 gamma_2_0 gamma_2_1 beta_1 beta_2] i
+      = ((∑ R : Fin 2,
+            nrBeta0 m_1 m_2 Gamma_1_0 Gamma_1_1 Gamma_2_0 Gamma_2_1 beta_1 beta_2 R i
+              * nrG m_1 m_2 Gamma_1_0 Gamma_1_1 Gamma_2_0 Gamma_2_1 gamma_1_0 gamma_1_1 gamma_2_0 gamma_2_1 R i
+              / ((![m_1, m_2] : Fin 2 → ℝ) R ^ 2 - s) : ℝ) : ℂ) := by
+  have e10 := Real.mul_self_sqrt (mul_nonneg hm1 h10)
+  have e11 := Real.mul_self_sqrt (mul_nonneg hm1 h11)
+  have e20 := Real.mul_self_sqrt (mul_nonneg hm2 h20)
+  have e21 := Real.mul_self_sqrt (mul_nonneg hm2 h21)
+  intro i
+  fin_cases i <;>
+    simp only [nrP22_0, nrP22_1, nrBeta0, nrG, Fin.sum_univ_two] <;>
+    simp <;>
+    generalize Real.sqrt (m_1 * Gamma_1_0) = a10 at * <;>
+    generalize Real.sqrt (m_1 * Gamma_1_1) = a11 at * <;>
+    generalize Real.sqrt (m_2 * Gamma_2_0) = a20 at * <;>
+    generalize Real.sqrt (m_2 * Gamma_2_1) = a21 at * <;>
+    (have c10 := congrArg (fun x : ℝ => (x : ℂ)) e10
+     have c11 := congrArg (fun x : ℝ => (x : ℂ)) e11
+     have c20 := congrArg (fun x : ℝ => (x : ℂ)) e20
+     have c21 := congrArg (fun x : ℝ => (x : ℂ)) e21
+     push_cast at c10 c11 c20 c21 ⊢
+     first
+       | linear_combination (exp := 1) (-(((m_1 : ℂ) ^ 2 - (s : ℂ))⁻¹ * (beta_1 : ℂ) * (gamma_1_0 : ℂ))) * c10
+           + (-(((m_2 : ℂ) ^ 2 - (s : ℂ))⁻¹ * (beta_2 : ℂ) * (gamma_2_0 : ℂ))) * c20
+       | linear_combination (exp := 1) (-(((m_1 : ℂ) ^ 2 - (s : ℂ))⁻¹ * (beta_1 : ℂ) * (gamma_1_1 : ℂ))) * c11
+           + (-(((m_2 : ℂ) ^ 2 - (s : ℂ))⁻¹ * (beta_2 : ℂ) * (gamma_2_1 : ℂ))) * c21)
+
+/-- The K-matrix parametrisation uses the SAME residue functions `g_R,i` (all-poles formula). -/
+theorem nrK22_eq_poleK (hm1 : 0 ≤ m_1) (hm2 : 0 ≤ m_2)
+    (h10 : 0 ≤ Gamma_1_0) (h11 : 0 ≤ Gamma_1_1) (h20 : 0 ≤ Gamma_2_0) (h21 : 0 ≤ Gamma_2_1) :
+    !![nrK22_00 s m_1 m_2 Gamma_1_0 Gamma_1_1 Gamma_2_0 Gamma_2_1 gamma_1_0 gamma_1_1 gamma_2_0 gamma_2_1 beta_1 beta_2,
+       nrK22_01 s m_1 m_2 Gamma_1_0 Gamma_1_1 Gamma_2_0 Gamma_2_1 gamma_1_0 gamma_1_1 gamma_2_0 gamma_2_1 beta_1 beta_2;
+       nrK22_10 s m_1 m_2 Gamma_1_0 Gamma_1_1 Gamma_2_0 Gamma_2_1 gamma_1_0 gamma_1_1 gamma_2_0 gamma_2_1 beta_1 beta_2,
+       nrK22_11 s m_1 m_2 Gamma_1_0 Gamma_1_1 Gamma_2_0 Gamma_2_1 gamma_1_0 gamma_1_1 gamma_2_0 gamma_2_1 beta_1 beta_2]
+      = poleKMatrix (Finset.univ : Finset (Fin 2))
+          (nrG m_1 m_2 Gamma_1_0 Gamma_1_1 Gamma_2_0 Gamma_2_1 gamma_1_0 gamma_1_1 gamma_2_0 gamma_2_1)
+          ![m_1, m_2] s := by
+  have q10 := Real.sq_sqrt h10
+  have q11 := Real.sq_sqrt h11
+  have q20 := Real.sq_sqrt h20
+  have q21 := Real.sq_sqrt h21
+  have p1 := Real.sq_sqrt hm1
+  have p2 := Real.sq_sqrt hm2
+  ext i j
+  fin_cases i <;> fin_cases j <;>
+    simp only [poleKMatrix, poleK, nrG, nrK22_00, nrK22_01, nrK22_10, nrK22_11, Fin.sum_univ_two,
+      csqrt_ofReal h10, csqrt_ofReal h11, csqrt_ofReal h20, csqrt_ofReal h21,
+      Real.sqrt_mul hm1, Real.sqrt_mul hm2] <;>
+    simp <;> push_cast <;>
+    generalize Real.sqrt Gamma_1_0 = a10 at * <;> generalize Real.sqrt Gamma_1_1 = a11 at * <;>
+    generalize Real.sqrt Gamma_2_0 = a20 at * <;> generalize Real.sqrt Gamma_2_1 = a21 at * <;>
+    generalize Real.sqrt m_1 = b1 at * <;> generalize Real.sqrt m_2 = b2 at * <;>
+    subst q10 q11 q20 q21 p1 p2 <;> push_cast <;> ring
+end PDoc
+
+/-- **Relativistic P-vector parametrisation = the documented formula** (last line of Eq.
+"P-vector parametrization" with the production coupling `β_R` and the partial width `Γ_R,i`, the
+reading under which the documented reduction to `relativistic_breit_wigner_with_ff` holds):
+`P̂_i = Σ_R β_R γ_R,i m_R Γ_R,i B_i(s) / (m_R² − s)` with `B_i = FormFactor` of channel `i`. -/
+theorem relP22_eq_documented (s m_1 m_2 Gamma_1_0 Gamma_1_1 Gamma_2_0 Gamma_2_1 gamma_1_0 gamma_1_1
+    gamma_2_0 gamma_2_1 beta_1 beta_2 : ℝ)
+    (rho0 rho1 rhoR_1_0 rhoR_1_1 rhoR_2_0 rhoR_2_1 ff_0 ff_1 ff0_1_0 ff0_1_1 ff0_2_0 ff0_2_1 : ℂ) :
+    relP22_0 s m_1 m_2 Gamma_1_0 Gamma_1_1 Gamma_2_0 Gamma_2_1 gamma_1_0 gamma_1_1 gamma_2_0 gamma_2_1 beta_1 beta_2 rho0 rho1 rhoR_1_0 rhoR_1_1 rhoR_2_0 rhoR_2_1 ff_0 ff_1 ff0_1_0 ff0_1_1 ff0_2_0 ff0_2_1
+      = (beta_1 : ℂ) * gamma_1_0 * m_1 * Gamma_1_0 * ff_0 / ((m_1 : ℂ) ^ 2 - s)
+        + (beta_2 : ℂ) * gamma_2_0 * m_2 * Gamma_2_0 * ff_0 / ((m_2 : ℂ) ^ 2 - s) ∧
+    relP22_1 s m_1 m_2 Gamma_1_0 Gamma_1_1 Gamma_2_0 Gamma_2_1 gamma_1_0 gamma_1_1 gamma_2_0 gamma_2_1 beta_1 beta_2 rho0 rho1 rhoR_1_0 rhoR_1_1 rhoR_2_0 rhoR_2_1 ff_0 ff_1 ff0_1_0 ff0_1_1 ff0_2_0 ff0_2_1
+      = (beta_1 : ℂ) * gamma_1_1 * m_1 * Gamma_1_1 * ff_1 / ((m_1 : ℂ) ^ 2 - s)
+        + (beta_2 : ℂ) * gamma_2_1 * m_2 * Gamma_2_1 * ff_1 / ((m_2 : ℂ) ^ 2 - s) := by
+  constructor <;> simp only [relP22_0, relP22_1] <;> ring
+
 /-! ## Part E — one channel, one pole: Breit-Wigner functions -/
 
 /-- Non-relativistic K-matrix, n = n_R = 1: `T = relativistic_breit_wigner(s, m, γ²Γ)` (algebraic
@@ -647,13 +741,34 @@ theorem kmRel11_eq (s m Γ γ : ℝ) (ρ ρR ff ff0 : ℂ) :
 
 /-! ## Part F — arguments are honoured -/
 
+/-- An itemised occurrence carries the marker arguments: every energy-dependent width the marker
+phase-space implementation, angular momentum and radius; every form factor the marker angular momentum
+and radius; every phase-space node the marker class; pole and channel were identified. -/
+def itemOk (it : OccItem) : Bool :=
+  it.pole != 99 && it.channel != 99 &&
+  (if it.kind == "W" then
+      it.phsp == "MarkerPhsp" && it.angMom == "L_marker" && it.radius == "d_marker"
+   else if it.kind == "F" then it.angMom == "L_marker" && it.radius == "d_marker"
+   else it.kind == "R" && it.phsp == "MarkerPhsp")
+
+def hasItem (o : Occ) (k : String) (R i : Nat) : Bool :=
+  o.items.any fun it => it.kind == k && it.pole == R && it.channel == i
+
+/-- Every channel has its phase-space node at `s`, every pole × channel its energy-dependent width,
+and (P-vector) every channel its production form factor. -/
+def covers (o : Occ) : Bool :=
+  (List.range o.nChannels).all fun i =>
+    hasItem o "R" 0 i && ((List.range o.nPoles).all fun r => hasItem o "W" (r + 1) i)
+      && (o.cls != "RelativisticPVector" || hasItem o "F" 0 i)
+
 /-- A row of the occurrence table honours the arguments: the relativistic classes contain exactly
-the marker phase-space implementation, the marker angular momentum and the marker radius; the
-non-relativistic classes (which take none of them) contain none. -/
+the marker phase-space implementation, the marker angular momentum and the marker radius — as sets and
+for every pole × channel; the non-relativistic classes (which take none of them) contain none. -/
 def honours (o : Occ) : Bool :=
   if o.relativistic then
-    (o.phsp == ["MarkerPhsp"] && o.angMom == ["L_marker"] && o.radius == ["d_marker"])
-  else (o.phsp == [] && o.angMom == [] && o.radius == [])
+    (o.phsp == ["MarkerPhsp"] && o.angMom == ["L_marker"] && o.radius == ["d_marker"]
+      && o.items.all itemOk && covers o)
+  else (o.phsp == [] && o.angMom == [] && o.radius == [] && o.items.isEmpty)
 
 /-- **The phase-space factor, angular momentum and meson radius passed to `formulate` are the only
 ones that occur anywhere in the result** — for every translated configuration (4 classes,
